@@ -29,8 +29,8 @@ PROBES = {
 def gen_history(rng, n):
     h = []
     for _ in range(n):
-        k = rng.choices(["construct", "algebra", "member", "detect", "infer", "cast", "frame", "create_type", "sampled", "list"],
-                        [2, 2, 3, 3, 4, 3, 2, 1, 1, 1])[0]
+        k = rng.choices(["construct", "algebra", "member", "detect", "infer", "cast", "frame", "create_type", "sampled", "list", "long"],
+                        [2, 2, 3, 3, 4, 3, 2, 1, 1, 1, 1])[0]
         ts = rng.choice(["standard", "complete", "geometry"])
         op = {"op": k, "ts": ts}
         if k == "algebra":
@@ -41,6 +41,8 @@ def gen_history(rng, n):
             op["recipe"] = G.gen_column(rng)
         if k in ("detect", "infer", "cast"):
             op["recipe"] = G.gen_column(rng)
+        if k == "long":
+            op["pos"] = sorted(rng.sample(range(1500), rng.choice([1, 2, 30])))
         if k == "frame":
             m = rng.randint(1, 3)
             L = rng.choice([2, 3])
@@ -89,9 +91,15 @@ def run(tier, seed):
         evals += len(r["log"]) + len(PROBES)
         for op, ent in zip(spec["history"], r["log"]):
             for ch in ent["changed"]:
+                if op["op"] == "sampled" and ch == "np_random_state":
+                    continue     # the explicit sampling helper draws from numpy's global generator by design
                 fails.append({"property": "C10", "signature": "global-state:" + ch.split(":")[0],
                               "what": "API call %s changed process-global state: %s" % (op["op"], ch), "op": op, "hashseed": hs})
             nontriv.add(canon(op))
+        for name, ans in r["probe"].items():
+            if name.startswith("long_") and len(set(map(canon, ans))) > 1:
+                fails.append({"property": "C10", "signature": "repeated-call-differs:" + name,
+                              "what": "repeated calls on the same (typeset, data) disagree: %s" % ans, "hashseed": hs})
         if canon(r["probe"]) != canon(ref["probe"]):
             keys = [k for k in ref["probe"] if canon(ref["probe"][k]) != canon(r["probe"].get(k))]
             fails.append({"property": "C10", "signature": "probe-differs:" + ",".join(keys[:3]),
